@@ -72,7 +72,6 @@ package xmlenc
 
 //@ contract (CBC).Encrypt
 //@ requires[cfg] cipher: e.cipher != nil
-//@ requires[cfg] rand: RandReader != nil
 //@ ensures[C10,C08] nonnil: err == nil ==> result != nil
 //@ -- framing: what is encrypted is the padded plaintext, under an IV drawn in this call, and the
 //@ -- emitted cipher value is IV || ciphertext (the W3C xmlenc layout)
@@ -87,7 +86,6 @@ package xmlenc
 
 //@ contract (GCM).Encrypt
 //@ requires[cfg] cipher: e.cipher != nil
-//@ requires[cfg] rand: RandReader != nil
 //@ ensures[C10] nonnil: err == nil ==> result != nil
 //@ assert@call[C10] Seal #1 (aead cipher.AEAD, dst []byte, n []byte, pt []byte) seals_plaintext:
 //@    len(pt) >= len(plaintext) && forall(0, len(plaintext), func(k int) bool { return pt[k] == plaintext[k] })
@@ -95,7 +93,6 @@ package xmlenc
 //@ contract (RSA).Encrypt
 //@ requires[cfg] blockcipher: e.BlockCipher != nil && e.BlockCipher.KeySize() >= 0
 //@ requires[cfg] fn: e.keyEncrypter != nil
-//@ requires[cfg] rand: RandReader != nil
 //@ requires[cfg] cert: certOK(certificate)
 //@ ensures[C08,C10] nonnil: err == nil ==> result != nil
 //@ -- the content-encryption key is drawn in this call, wrapped, and handed to the block cipher
